@@ -527,7 +527,10 @@ def execute(sd, ego, cases, tz, nthreads):
     if not cases:
         return []
     env = {"TZ": tz}
-    srv = egosrv.Server(sd, ego, env=env, name="srv-" + re.sub(r"\W", "_", tz))
+    # generous transport timeouts: the defaults (10 s headers, 30 s request) are wall-clock and trip on an overloaded machine
+    slow = {"ego.server.read.timeout": "600s", "ego.server.read.header.timeout": "600s", "ego.server.write.timeout": "600s",
+            "ego.server.idle.timeout": "600s"}
+    srv = egosrv.Server(sd, ego, env=env, settings=slow, name="srv-" + re.sub(r"\W", "_", tz))
     srv.start(wait=90)
     try:
         tok = None
